@@ -164,6 +164,9 @@ def _string_case(ch):
                 "let s 0\nregister q[4]\nmap r q[::s]\nmap t r\nloop 2 { g t[1] }\n",
                 "let s -1\nregister q[4]\nmap r q[3:0:s]\nmacro m a { g a }\nm r[0]\n",
                 "register q[2]\nmacro a { b }\nmacro b { a }\na\n",
+                # a FLAT chain of macros, each calling the previous one (no nested blocks at all)
+                "register q[1]\nmacro m0 a { g a }\n" + "".join(f"macro m{i} a {{ m{i-1} a }}\n" for i in range(1, 400)) + "m399 q[0]\n",
+                "from vlib.pulses.moda usepulses *\nregister q[1]\nmacro m0 a { XA a }\n" + "".join(f"macro m{i} a {{ m{i-1} a }}\n" for i in range(1, 400)) + "subcircuit { m399 q[0] }\n",
                 "register q[2]\nmacro m a { g a }\nloop 2 { m q[1] }\nm 1.5\n",
                 "register q[1]\nbranch { '0': { g q[0] } }\n",
                 "from . usepulses *\nregister q[1]\n",
